@@ -28,6 +28,12 @@ func (c *FnCtx) sortSliceModel(cc *ssa.CallCommon) bool {
 	lessFn := mc.Fn.(*ssa.Function)
 	lfc := c.g.cs.Funcs[lessFn.String()]
 	if lfc == nil {
+		if c.abstract {
+			// abstracting tier: the slice's elements become arbitrary
+			c.havocSliceElems(c.val(mi.X), "", &Env{c: c})
+			c.used["abstracting tier: sort.Slice with an uncontracted less closure leaves arbitrary elements"] = true
+			return true
+		}
 		c.unsup("sort.Slice: the less closure %s has no contract", shortName(lessFn.String()))
 	}
 	c.used["model: sort.Slice leaves a permutation ordered by the (verified) contract of its less closure"] = true
